@@ -6,6 +6,7 @@ All statements quantify over every address, length / data, budget and both build
 profiles; nothing is bounded.
 -/
 import CamVerif.Model.Cmd
+import CamVerif.Gen.CmdConsts
 namespace CamVerif.C10
 open CamVerif CamVerif.Cmd
 
@@ -294,6 +295,15 @@ theorem write_empty (p : Profile) (a b : Nat) (hb : HEADER_LEN + 8 < b) :
     writeChunks p a [] b = .ok [] := by
   simp [writeChunks, WriteMem.new, intoScdLen, WriteMem.chunks, Nat.not_le.mpr hb,
     WriteMemChunks.collect, WriteMemChunks.next, U16_MAX, Bind.bind, Res.bind]
+
+/-- **gen_consts_agree**: the constants the model uses are the ones regenerated from the
+current `cmd.rs` on this run (tie by regeneration for the header arithmetic). -/
+theorem gen_consts_agree :
+    ACK_HEADER_LENGTH = Gen.CmdConsts.ACK_HEADER_LENGTH ∧
+    HEADER_LEN = Gen.CmdConsts.HEADER_LEN ∧
+    CCD_LEN = Gen.CmdConsts.CCD_LEN ∧
+    HEADER_LEN + 8 = Gen.CmdConsts.WRITE_CHUNK_HEADER ∧
+    (Cmd.readMem ⟨0, 0⟩).scdLen = Gen.CmdConsts.READMEM_SCD_LEN := by decide
 
 /-! ## Non-vacuity: the hypotheses are satisfiable and the conclusions are the
 expected concrete partitions. -/
